@@ -55,6 +55,11 @@ func modelOutcomeCanon(m string) string {
 
 // genBalCases generates n (journal, flags) cases and runs the real `knut balance` on them in parallel.
 func genBalCases(c *Ctx, stream string, n int, jo func(r *RNG) JGenOpts, bo BalGenOpts) []*balCase {
+	return genBalCasesWith(c, stream, n, jo, func(r *RNG, j *Journal, val string) BalFlags { return GenBalFlags(r, j, val, bo) })
+}
+
+// genBalCasesWith is genBalCases with a custom flag generator.
+func genBalCasesWith(c *Ctx, stream string, n int, jo func(r *RNG) JGenOpts, fo func(r *RNG, j *Journal, val string) BalFlags) []*balCase {
 	dir := filepath.Join(c.WorkDir, stream)
 	os.MkdirAll(dir, 0o755)
 	var cases []*balCase
@@ -66,7 +71,7 @@ func genBalCases(c *Ctx, stream string, n int, jo func(r *RNG) JGenOpts, bo BalG
 		o := jo(r)
 		j, tags := GenJournal(r, o)
 		text, _ := j.Text()
-		f := GenBalFlags(r, j, o.Valuation, bo)
+		f := fo(r, j, o.Valuation)
 		cases = append(cases, &balCase{Idx: i, J: j, Text: text, F: f, Tags: tags})
 	}
 	parallelFor(len(cases), 16, func(k int) {
